@@ -281,6 +281,7 @@ class Node:
         self.deferred = False
         self.rx_pending_mark = 0
         self.notify_errors = []
+        self.listener_escapes = []  # exceptions that escaped MessageListener.on_message_received
         self.silent_from = None    # frames sent with per-node index >= this are lost
         self.sent = 0
         self.held = False          # C08: job pass suspended by the line hook
@@ -375,14 +376,23 @@ class Node:
             data = bytearray(data)
         else:
             data = list(data)
-        try:
-            if frame.get('via_listener'):
-                import can
-                msg = can.Message(arbitration_id=frame['id'], data=data, is_extended_id=frame['ext'],
-                                  is_fd=frame['fd'], timestamp=0.0, check=False)
+        if frame.get('via_listener'):
+            # through the real bus listener, as python-can's Notifier thread would: an exception that escapes
+            # on_message_received ends that thread, i.e. the stack stops receiving for good
+            import can
+            msg = can.Message(arbitration_id=0, data=bytearray(min(len(data), 64)), is_extended_id=frame['ext'],
+                              is_fd=frame['fd'], timestamp=0.0, check=False)
+            msg.arbitration_id = frame['id']
+            msg.data = data             # may hold proxies (the constructor would force them into a bytearray)
+            msg.timestamp = w.now
+            try:
                 self.ecu._listeners[0].on_message_received(msg)
-            else:
-                self.ecu.notify(frame['id'], data, w.now)
+            except Exception as e:
+                self.listener_escapes.append(e)
+                w.log_event('exception-escaped-the-bus-listener', self.name, repr(e))
+            return
+        try:
+            self.ecu.notify(frame['id'], data, w.now)
         except Exception as e:
             # python-can's notifier thread: MessageListener.on_message_received logs and continues
             self.notify_errors.append(e)
